@@ -151,7 +151,18 @@ class _Loc:
             raise Unsupported("DataFrame.loc with a non 2-tuple key")
         rows, cols = key
         df = self.df
-        if not (isinstance(rows, slice) and rows == slice(None)):
+        sympd = _pd()
+        if isinstance(rows, sympd.Index) or (isinstance(rows, (snp.ndarray, list)) and not (
+                isinstance(rows, snp.ndarray) and rows._dt.kind == "b")):
+            # selection by row labels: every row carrying one of the labels, label by label
+            pos = sympd._label_positions(df.index, rows)
+            ii = _np.array(pos, dtype=int)
+            out = DataFrame()
+            out._index = sympd.Index(df.index.arr[ii]) if ii.size else sympd.Index(df.index.arr[:0])
+            for k, v in df._cols.items():
+                out._cols[k] = v[ii] if ii.size else v[:0]
+            df = out
+        elif not (isinstance(rows, slice) and rows == slice(None)):
             df = df._select_rows(rows)
         if isinstance(cols, slice) and cols == slice(None):
             return df
